@@ -94,13 +94,23 @@ def make_problem(rng, n_basis=None, tiny=False, n_negative=None):
     selk = 'all' if tiny else gen.pick(rng, ['all', 'subset', 'bootstrap', 'bootstrap'])
     labels = [int(v) for v in rng.permutation(n_cond) * 3 + 2]   # non-0-based condition labels
     desc = gen.pick(rng, ['index', 'cond'])
-    lab = list(range(n_cond)) if desc == 'index' else labels
+    if desc == 'cond' and rng.integers(2):
+        # condition names of different lengths, some a prefix of another ('c2', 'c20'): a selection handed over as a
+        # fixed-width numpy string array is as wide as its longest member only
+        labels = [f'c{v}' for v in labels]
     if selk == 'all':
         pos = list(range(n_cond))
     elif selk == 'subset':
         pos = sorted(int(i) for i in rng.choice(n_cond, size=int(rng.integers(4, n_cond + 1)), replace=False))
     else:
         pos = sorted(int(i) for i in rng.integers(0, n_cond, size=n_cond))
+    unsel = [c for c in range(n_cond) if c not in set(pos)]
+    if isinstance(labels[0], str) and unsel and rng.integers(2):
+        # every left-out condition is named as a selected one plus a suffix, longer than any selected name: the
+        # selection array is then narrower than the object's descriptor
+        for j, c in enumerate(unsel):
+            labels[c] = labels[pos[j % len(pos)]] + f'_{j}x'
+    lab = list(range(n_cond)) if desc == 'index' else labels
     return dict(n_cond=n_cond, n_basis=n_basis, n_train=n_train, basis=basis, data=data, selk=selk,
                 labels=labels, desc=desc, lab=lab, pos=pos)
 
@@ -535,7 +545,7 @@ def run_model_laws(ctx):
                 ctx.fail('model_laws', dict(sig, what='predict_vs_predict_rdm'), f'predict and predict_rdm differ for '
                          f'theta {th}: {maxdiff(pv, pr.dissimilarities[0])}', wit(theta=th))
                 return
-            if [int(v) for v in pr.pattern_descriptors['cond']] != prob['labels']:
+            if [str(v) for v in pr.pattern_descriptors['cond']] != [str(v) for v in prob['labels']]:
                 ctx.fail('model_laws', dict(sig, what='descriptors'), 'prediction lost the model\'s condition '
                          'descriptors', wit())
                 return
